@@ -58,7 +58,66 @@ def gen_cases(rng, tier, drift):
             if cfg.get("I", 1) > 1 and rng.random() < 0.6:
                 cfg["I"] = 1
         cases.append(dict(kind="free", mode=mode, cfg=cfg))
+    # the KIND of exception the dataset raises (incl. the ones the loader machinery uses itself: StopIteration, KeyError, an exception whose
+    # constructor takes several arguments, ...): it must reach the consumer as that exception, at that batch, whatever the worker count
+    for _ in range(n_f // 3):
+        cfg = si.gen_cfg(rng, kinds=("map",))
+        cfg["n"] = rng.randint(3, 9)
+        cfg["I"] = 1
+        cfg["W"] = rng.choice([0, 1, 2, 2, 3])
+        cfg["bad"] = [rng.randrange(cfg["n"])]
+        cases.append(dict(kind="free", mode="exckind", cfg=cfg, exc=rng.choice(EXC_KINDS)))
+    # a worker_init_fn that fails in SOME workers while another worker is slow to start (longer than the liveness poll of the main process)
+    for i in range(2 if tier == "quick" and not drift else 8):
+        W = rng.choice([2, 3])
+        bad = rng.randrange(W)
+        cfg = si.gen_cfg(rng, kinds=("map",))
+        cfg.update(n=max(cfg["n"], 2), W=W, I=1, ibad=[bad], islow=[(bad + 1) % W])
+        cases.append(dict(kind="free", mode="init_slow", cfg=cfg))
     return cases
+
+
+# (exception classes whose constructor needs several arguments are outside the claim: torch's own ExceptionWrapper.reraise, which the
+#  loader inherits, documents that it re-raises those as RuntimeError)
+EXC_KINDS = ["ValueError", "KeyError", "StopIteration", "RuntimeError", "AssertionError", "TimeoutError", "IndexError", "OSError"]
+
+
+class TwoArgs(Exception):
+    def __init__(self, a, b):
+        super().__init__(a, b)
+        self.a, self.b = a, b
+
+
+class ExcDS:
+    """map-style dataset that raises a chosen kind of exception at the bad indices"""
+
+    def __init__(self, n, bad, kind):
+        self.n, self.bad, self.kind = n, set(bad), kind
+
+    def __len__(self):
+        return self.n
+
+    def __getitem__(self, i):
+        if i in self.bad:
+            if self.kind == "TwoArgs":
+                raise TwoArgs("bad", i)
+            raise {"ValueError": ValueError, "KeyError": KeyError, "StopIteration": StopIteration, "RuntimeError": RuntimeError,
+                   "AssertionError": AssertionError, "TimeoutError": TimeoutError, "IndexError": IndexError, "OSError": OSError}[self.kind](f"bad index {i}")
+        return i
+
+
+class InitSlowBad:
+    """worker_init_fn: raises in some workers, sleeps longer than the main process's liveness poll in others"""
+
+    def __init__(self, bad, slow, secs=6.5):
+        self.bad, self.slow, self.secs = set(bad), set(slow), secs
+
+    def __call__(self, wid):
+        if wid in self.slow:
+            import time
+            time.sleep(self.secs)
+        if wid in self.bad:
+            raise OSError(f"init of worker {wid} failed")
 
 
 def distribution(cases):
@@ -114,6 +173,44 @@ def run_impl(c):
             return dict(obs=obs, used=used, oracle="; ".join(fails) or None,
                         nontrivial=nfail >= 1 and want.index("err") < len(want) - 2, key=[cfg, used])
         mode = c["mode"]
+        if mode == "exckind":
+            from torchdata.stateful_dataloader import StatefulDataLoader
+            kw = dict(batch_size=cfg["bs"], num_workers=cfg["W"], collate_fn=si.identity)
+            if cfg["bs"] is not None:
+                kw["drop_last"] = cfg.get("drop", False)
+            if cfg["W"]:
+                kw["prefetch_factor"] = cfg["P"]
+            dl = StatefulDataLoader(ExcDS(cfg["n"], cfg["bad"], c["exc"]), **kw)
+            want = expected(cfg, set(cfg["bad"]), "err:" + c["exc"])
+            L = len(want)
+            it = iter(dl)
+            got = []
+            for _ in range(L):
+                try:
+                    got.append(si.norm_batch(next(it)))
+                except StopIteration:
+                    got.append("err:StopIteration")
+                except Exception as e:  # noqa
+                    got.append("err:" + type(e).__name__)
+                    if type(e).__name__ == "RuntimeError" and "exited unexpectedly" in str(e):
+                        got[-1] = "err:WORKER-DIED"
+            del it, dl
+            k = next((i for i, x in enumerate(want) if isinstance(x, str)), None)
+            if c["exc"] == "StopIteration":
+                # a StopIteration out of the dataset ends the consumer's loop at that batch (that is Python's protocol): what must not
+                # happen is a dead worker / a different error / a wrong batch before it
+                if k is not None and got[:k + 1] != want[:k] + ["err:StopIteration"]:
+                    fails.append(f"dataset raises StopIteration at batch {k}: consumer saw {got[:k + 1]}, expected {want[:k] + ['err:StopIteration']}")
+            elif got != want:
+                fails.append(f"dataset raises {c['exc']}: consumer saw {got}, reference {want}")
+            return dict(oracle="; ".join(fails) or None, nontrivial=k is not None and cfg["W"] > 0, key=[mode, cfg, c["exc"]])
+        if mode == "init_slow":
+            dl = si.make_loader(cfg, worker_init_fn=InitSlowBad(cfg["ibad"], cfg["islow"]))
+            got = drain(dl, 2)
+            del dl
+            if not got or got[0] != "err:OSError":
+                fails.append(f"worker_init_fn fails in worker {cfg['ibad']} while worker {cfg['islow']} is slow to start: the first next() gave {got}, expected the OSError of worker_init_fn")
+            return dict(oracle="; ".join(fails) or None, nontrivial=True, key=[mode, cfg])
         extra = {}
         if mode == "collate":
             extra["collate_fn"] = si.CollateBad(cfg["cbad"])
